@@ -112,7 +112,8 @@ def cases(tier, seed):
             yield ("fault", name, f)
     for f in FAULTS:
         for fmt in ("ips", "sfc"):
-            yield ("process", f, fmt)
+            for name in (base_programs() if tier == "thorough" else ["simple"]):
+                yield ("process", f, fmt, name)
 
 
 def describe(case, res):
@@ -284,10 +285,13 @@ def run_control(name):
     return {"evals": evals, "nt_count": 0, "outcome": "control-ok" if not viol else "CONTROL-FAILED", "violations": viol}
 
 
-def run_process(fault, fmt):
-    prog = base_programs()["simple"]
+def run_process(fault, fmt, name="simple"):
+    prog = base_programs()[name]
     src = render.source(inject(prog, 2, FAULTS[fault]))
-    impl.write_files({"prog.s": src})
+    files = dict(c12.FILES)
+    files.update(render.files_of(prog))
+    files["prog.s"] = src
+    impl.write_files(files)
     env = dict(os.environ, PYTHONPATH=impl.REPO, PYTHONDONTWRITEBYTECODE="1")
     viol = []
     try:
@@ -310,4 +314,4 @@ def run_case(case):
         return run_fault(case[1], case[2])
     if case[0] == "control":
         return run_control(case[1])
-    return run_process(case[1], case[2])
+    return run_process(*case[1:])
